@@ -13,7 +13,7 @@ import (
 
 func init() {
 	register(&Property{
-		ID: "C10",
+		ID:          "C10",
 		Explanation: "Resource typestate decided on every control-flow path of the source: (drive-bracket) in every function that acquires the drive through BackendConfig.GetWriter/GetReader, each function exit reachable after a successful acquire has passed the matching CloseWriter/CloseReader (explicit, deferred, or the flag-guarded deferred idiom) and no close is reached with the drive free - a may-dataflow over go/cfg with the `err != nil` edge of the acquiring statement treated as 'not acquired'; (manager-typestate) inside pkg/tape the physical drive mutex is released on every error return of the acquiring functions and on every return of Close; (lock-pairs) every other sync.Mutex Lock is released on all exits; (no-crash-site) library packages contain no panic call, no Must*-style compile of caller input and no goroutine feeding a pipe that can exit without closing it.",
 		NotDecided:  "Absence of hangs in general (a client-paced pipe reader keeps the drive, see C11), I/O fault injection at the k-th call, errors of the database layer, termination of loops.",
 		Assumptions: []string{"BackendConfig.CloseWriter/CloseReader release what GetWriter/GetReader acquired (they are bound to TapeManager.Close in every constructor in the tree; checked by C10.backend-binding)"},
@@ -22,12 +22,12 @@ func init() {
 }
 
 const (
-	bW  State = 1 << iota // writer may be held
-	bR                    // reader may be held
-	bDR                   // deferred CloseReader registered
-	bDW                   // deferred (flag-guarded or plain) CloseWriter registered
-	bArmed                // the guard flag of the deferred CloseWriter may be true
-	bFreeW                // a path exists on which the writer is not held (for close-in-free detection)
+	bW     State = 1 << iota // writer may be held
+	bR                       // reader may be held
+	bDR                      // deferred CloseReader registered
+	bDW                      // deferred (flag-guarded or plain) CloseWriter registered
+	bArmed                   // the guard flag of the deferred CloseWriter may be true
+	bFreeW                   // a path exists on which the writer is not held (for close-in-free detection)
 	bFreeR
 )
 
@@ -38,11 +38,11 @@ type bracket struct {
 	fl *Flow
 	cs map[*ast.CallExpr]*CallSite
 	// flag-guarded deferred close: defer func(){ if flag { CloseWriter() } }()
-	flagVar map[*ast.DeferStmt]*types.Var
-	flagPos map[*ast.DeferStmt]bool // true: closes when flag is true
+	flagVar      map[*ast.DeferStmt]*types.Var
+	flagPos      map[*ast.DeferStmt]bool // true: closes when flag is true
 	closeSummary map[*FuncInfo]string
-	freeCloses []string
-	acquires   map[*FuncInfo]bool // functions that (transitively) acquire the drive
+	freeCloses   []string
+	acquires     map[*FuncInfo]bool // functions that (transitively) acquire the drive
 	heldAcquires []string
 }
 
@@ -520,7 +520,7 @@ func ruleC10LockPairs(c *Ctx) {
 			an := &Analysis{Must: false, Entry: 0, Node: func(nd ast.Node, s State) State {
 				if d, ok := nd.(*ast.DeferStmt); ok {
 					if m, o := mutexField(info, d.Call); m == mv && o == unlockName {
-						return s &^ 1 | 2
+						return s&^1 | 2
 					}
 					return s
 				}
@@ -606,6 +606,10 @@ func crashSites(c *Ctx, rule string) {
 				// a goroutine that captures an *io.PipeWriter must close it (Close/CloseWithError) on every exit,
 				// otherwise the reader side blocks forever
 				if pw := capturedPipeWriter(cs.Target); pw != nil {
+					every := closesOnEveryExit(c, cs.Target, pw)
+					c.verdictIf(every, rule, f, construct+" closes on every exit", cs.Call.Pos(),
+						"the goroutine closes the pipe writer on every exit (deferred or explicit), so the reading side always sees an end",
+						"goroutine feeding pipe writer "+pw.Name()+" can finish without closing it (e.g. when the producer returns success without ever opening the destination it was offered): the reading call then blocks forever while holding its lock")
 					closed := closesOnAllExits(c, cs.Target, pw)
 					c.verdictIf(closed, rule, f, construct, cs.Call.Pos(),
 						"goroutine closes the pipe writer it feeds on every error path",
@@ -638,6 +642,50 @@ func capturedPipeWriter(l *FuncInfo) *types.Var {
 		return true
 	})
 	return found
+}
+
+// closesOnEveryExit: every exit of the goroutine has closed the pipe writer (Close/CloseWithError, deferred or explicit).
+func closesOnEveryExit(c *Ctx, l *FuncInfo, pw *types.Var) bool {
+	info := l.Pkg.TypesInfo
+	isClose := func(call *ast.CallExpr) bool {
+		se, ok := ast.Unparen(call.Fun).(*ast.SelectorExpr)
+		if !ok || (se.Sel.Name != "Close" && se.Sel.Name != "CloseWithError") {
+			return false
+		}
+		return objOfIdent(info, se.X) == types.Object(pw)
+	}
+	fl := c.flow(l)
+	an := &Analysis{Must: true, Entry: 0, Node: func(n ast.Node, s State) State {
+		if d, ok := n.(*ast.DeferStmt); ok {
+			hit := isClose(d.Call)
+			if lit, ok := d.Call.Fun.(*ast.FuncLit); ok {
+				ast.Inspect(lit.Body, func(m ast.Node) bool {
+					if call, ok := m.(*ast.CallExpr); ok && isClose(call) {
+						hit = true
+					}
+					return true
+				})
+			}
+			if hit {
+				return s | 1
+			}
+			return s
+		}
+		for _, call := range callsIn(n) {
+			if isClose(call) {
+				s |= 1
+			}
+		}
+		return s
+	}}
+	fl.solve(an)
+	all := true
+	fl.exits(an, func(ret *ast.ReturnStmt, ord int, s State) {
+		if s&1 == 0 {
+			all = false
+		}
+	})
+	return all
 }
 
 // closesOnErrorPaths: on every path of the goroutine on which an error is known to be non-nil (true edge of
